@@ -18,7 +18,8 @@ MustS == { Sp(FALSE, <<"l">>), Sp(FALSE, <<"l", "s">>), Sp(FALSE, <<"l", "n">>),
            Sp(FALSE, <<"..", "out", "s">>), Sp(FALSE, <<"..", "out", "n">>), Sp(FALSE, <<"..", "out">>),
            Sp(FALSE, <<"d", "..", "..", "out", "s">>), Sp(FALSE, <<"..">>), Sp(FALSE, <<".">>),
            Sp(TRUE, <<"a", "w", "out", "s">>), Sp(TRUE, <<"a", "w", "out", "n">>), Sp(TRUE, <<"a", "w", "out">>),
-           Sp(TRUE, <<"a", "w", "root", "l">>), Sp(TRUE, <<"a", "w", "root", "..", "out", "s">>),
+           Sp(FALSE, <<"..", "rootx", "s">>), Sp(TRUE, <<"a", "w", "rootx", "s">>), Sp(TRUE, <<"a", "w", "rootx", "n">>),
+           Sp(TRUE, <<"a", "w", "root", "l">>), Sp(TRUE, <<"a", "w", "root", "l", "s">>), Sp(TRUE, <<"a", "w", "root", "l", "n">>), Sp(TRUE, <<"a", "w", "root", "..", "out", "s">>),
            Sp(TRUE, <<"", "a", "w", "out", "", "s">>), Sp(TRUE, <<"f">>), Sp(TRUE, <<>>),
            Sp(FALSE, <<"f">>), Sp(FALSE, <<"n">>), Sp(FALSE, <<"d">>), Sp(FALSE, <<"d", "g">>),
            Sp(FALSE, <<"d", "k">>), Sp(FALSE, <<"m">>), Sp(FALSE, <<"m", "n">>), Sp(FALSE, <<"d", "n", "">>) }
